@@ -11,49 +11,49 @@ open Kopf Kopf.J
 theorem lookup_insert_same (k : String) (v : J) (l : List (String × J)) :
     lookup k (insert k v l) = some v := by
   induction l with
-  | nil => simp [insert, lookup]
+  | nil => simp [J.insert, J.lookup]
   | cons hd tl ih =>
     obtain ⟨k', v'⟩ := hd
     by_cases h : k' = k
-    · simp [insert, lookup, h]
-    · simp [insert, lookup, h, ih]
+    · simp [J.insert, J.lookup, h]
+    · simp [J.insert, J.lookup, h, ih]
 
 theorem lookup_insert_other (k k' : String) (v : J) (l : List (String × J)) (h : k' ≠ k) :
     lookup k' (insert k v l) = lookup k' l := by
   induction l with
-  | nil => simp [insert, lookup, Ne.symm h]
+  | nil => simp [J.insert, J.lookup, Ne.symm h]
   | cons hd tl ih =>
     obtain ⟨k2, v2⟩ := hd
     by_cases h2 : k2 = k
     · subst h2
       have : ¬ k2 = k' := fun e => h e.symm
-      simp [insert, lookup, this]
+      simp [J.insert, J.lookup, this]
     · by_cases h3 : k2 = k'
-      · simp [insert, lookup, h2, h3]
-      · simp [insert, lookup, h2, h3, ih]
+      · simp [J.insert, J.lookup, h2, h3]
+      · simp [J.insert, J.lookup, h2, h3, ih]
 
 theorem lookup_erase_same (k : String) (l : List (String × J)) : lookup k (erase k l) = none := by
   induction l with
-  | nil => simp [erase, lookup]
+  | nil => simp [J.erase, J.lookup]
   | cons hd tl ih =>
     obtain ⟨k', v'⟩ := hd
     by_cases h : k' = k
-    · simp [erase, h, ih]
-    · simp [erase, lookup, h, ih]
+    · simp [J.erase, h, ih]
+    · simp [J.erase, J.lookup, h, ih]
 
 theorem lookup_erase_other (k k' : String) (l : List (String × J)) (h : k' ≠ k) :
     lookup k' (erase k l) = lookup k' l := by
   induction l with
-  | nil => simp [erase, lookup]
+  | nil => simp [J.erase, J.lookup]
   | cons hd tl ih =>
     obtain ⟨k2, v2⟩ := hd
     by_cases h2 : k2 = k
     · subst h2
       have : ¬ k2 = k' := fun e => h e.symm
-      simp [erase, lookup, this, ih]
+      simp [J.erase, J.lookup, this, ih]
     · by_cases h3 : k2 = k'
-      · simp [erase, lookup, h2, h3]
-      · simp [erase, lookup, h2, h3, ih]
+      · simp [J.erase, J.lookup, h2, h3]
+      · simp [J.erase, J.lookup, h2, h3, ih]
 
 /-! ### prefix test -/
 
@@ -158,6 +158,6 @@ theorem leafAt_nonobj (j : J) (h : j.isObj = false) (q : List String) :
   cases j <;> cases q <;> simp_all [leafAt, isObj]
 
 theorem leafAt_empty (q : List String) : leafAt (.obj []) q = none := by
-  cases q <;> simp [leafAt, lookup]
+  cases q <;> simp [leafAt, J.lookup]
 
 end Kopf.C18
